@@ -78,6 +78,29 @@ def substitute(expr, subs):
         subs = tuple(subs.items())
     support = frozenset(k for k, v in subs)
 
+    # Substitution is simultaneous. If a value mentions one of the keys, first
+    # rename the keys apart so that the value's free variables are not captured
+    # when substitution is applied to an already evaluated subterm.
+    if (
+        isinstance(expr, Funsor)
+        and not support.isdisjoint(expr.inputs)
+        and any(
+            isinstance(v, Funsor) and not support.isdisjoint(v.inputs) for k, v in subs
+        )
+    ):
+        renames = tuple(
+            (k, Variable(interpreter.gensym(k + "__SUBS"), v.output))
+            for k, v in subs
+            if isinstance(v, Funsor)
+        )
+        with reflect:  # pure renaming; evaluation happens in the second pass
+            expr = substitute(expr, renames)
+        renames = dict(renames)
+        subs = tuple(
+            (renames[k].name if k in renames else k, v) for k, v in subs
+        )
+        support = frozenset(k for k, v in subs)
+
     def stop(x):
         if interpreter.is_atom(x):
             return True
